@@ -376,7 +376,7 @@ def columns_slice_task(T):
 add_task(['C09', 'C10'], 'sparse_ops:sparse_columns_slice', columns_slice_task, strength='B')
 
 
-def spectral_norm_task(T, iters):
+def spectral_norm_task(T, iters, unit_start=False):
     """spectral_norm returns sqrt of a Rayleigh quotient v^T X X^T v of a UNIT vector v (hence never above ||X||_2: Rayleigh, trusted
     lemma); start vector symbolic (np.random.randn replaced by a symbolic non-zero vector for the run), `iters` power iterations.
     How close it gets to ||X||_2 is convergence of the power method: not decided."""
@@ -423,10 +423,14 @@ def spectral_norm_task(T, iters):
         vv = v0[0] * v0[0] + v0[1] * v0[1]
         vGv = z3.Sum([v0[i] * G[i][j] * v0[j] for i in range(2) for j in range(2)])
         return [('result>=0', [], r >= 0), ('result^2==rayleigh-quotient-of-a-unit-vector', [], r * r * vv == vGv)]
-    check_contract(T, f'spectral_norm[iters={iters}]', run, zpre([z3.Or(v0[0] != 0, v0[1] != 0)]), post, strength='B', safety=False)
+    # quick tier: the start vector is taken of unit length (the code's own normalisation then divides by 1): the identity is a
+    # degree-2 query; the general start vector (degree 4 after clearing the normalisation) is the thorough-tier variant
+    start = [v0[0] * v0[0] + v0[1] * v0[1] == 1] if unit_start else [z3.Or(v0[0] != 0, v0[1] != 0)]
+    check_contract(T, f'spectral_norm[iters={iters}{",unit-start" if unit_start else ""}]', run, zpre(start), post, strength='B', safety=False)
 
 
-add_task('C09', 'sparse_ops:spectral_norm[iters=1]', spectral_norm_task, strength='B', iters=1)
+add_task('C09', 'sparse_ops:spectral_norm[iters=1,unit-start]', spectral_norm_task, strength='B', iters=1, unit_start=True)
+add_task('C09', 'sparse_ops:spectral_norm[iters=1]', spectral_norm_task, strength='B', tier='thorough', iters=1)
 
 
 def target_domain_task(T, name):
